@@ -17,6 +17,9 @@ import PynetVerif.Driver.Qr
 import PynetVerif.Driver.Cmd
 import PynetVerif.Driver.History
 import PynetVerif.Driver.Outcome
+import PynetVerif.Driver.Trigger
+import PynetVerif.Driver.Scp
+import PynetVerif.Driver.Pdu
 open PynetVerif
 
 /-- Each model contributes `String → List SExp → Option SExp` (none = not my op). -/
@@ -38,7 +41,10 @@ def handlers : List (String → List SExp → Option SExp) :=
    Driver.qrOps,
    Driver.cmdOps,
    Driver.historyOps,
-   Driver.outcomeOps]
+   Driver.outcomeOps,
+   Driver.triggerOps,
+   Driver.scpOps,
+   Driver.pduOps]
 
 def handle (e : SExp) : SExp :=
   match e with
